@@ -1,4 +1,4 @@
-HOOK_COMMITS = []
+HOOK_COMMITS = ["37833fd"]
 NOTES = ("Every check: regenerates Gen/Generated.v from /repo, re-builds and audits its Coq theorems (hygiene grep, Print Assumptions), "
          "rebuilds the Rust harness from /repo's working tree with the hook cfg, then runs the correspondence streams "
          "(implementation vs extracted model vs executable spec). See DESIGN.md.")
@@ -12,4 +12,43 @@ CLAIMED = {
   "design_ref": "6/C04", "note": COMMON_NOTE + " Known finding F26 (width 0).",
   "technique": "Coq proof (lia over Z.log2/pow2, bit-level emit lemmas) + exhaustive differential correspondence impl/model/spec"},
 }
+CLAIMED["C05"] = {
+  "text": "Theorems for all operands that the code's per-bit slice/concat loops, byte-complement `!` and byte-reversing `le` equal plain mathematics "
+          "((x / 2^r) mod 2^(l-r), a*2^n+b, -x-1, byte reversal), plus table obligations re-proved on every run against tables regenerated from /repo "
+          "(operator-precedence chain = documented chain, token table, limits). The lexer/parser/evaluator models are tied to the code by running "
+          "expr::parse + Expr::eval and decide_next_token against the extracted model on generated trees printed minimally and fully parenthesised "
+          "(the intended tree is the spec of the parse), their mutants, and the corpus; values are compared with the extracted mathematical semantics.",
+  "design_ref": "6/C05", "note": COMMON_NOTE + " The whole-evaluator refinement theorem and the printer/parser round trip are not yet proved (per-operation theorems + table obligations + correspondence).",
+  "technique": "Coq proof (Z.bits_inj' bit-level induction, byte-string arithmetic) + vm_compute table obligations over translated tables + differential correspondence impl/model/semantics"}
+CLAIMED["C06"] = {
+  "text": "Invariant theorems (unbounded sequences, banks, positions) about models of OverlapChecker, check_bank_overlap, fill_banks, build_output and the cursor arithmetic: "
+          "accepted positive-size requests are pairwise disjoint for every binary search meeting the library contract, overlapping requests are rejected, layout_ok holds for "
+          "every successful build_output (exact length under 'no zero-sized written item'), each bad class is rejected, position/address round trips. Tied to the code by driving "
+          "OverlapChecker with ~20k request sequences and ~12k generated bank programs (debug+release) against the model; the extracted layout_ok and an independent Python reading "
+          "are evaluated on the implementation's own output (bank definitions, spans, bits), including the corpus.",
+  "design_ref": "6/C06", "note": COMMON_NOTE + " Known findings F48 (window end overflows usize), F49 (zero-sized item extends output).",
+  "technique": "Coq invariants (StronglySorted intervals, per-node build_output invariant, lia/nia) + differential correspondence + extracted invariant monitor on implementation output"}
+CLAIMED["C11"] = {
+  "text": "Round-trip theorems decode_F (format_F bits) = Some (pad g_F bits) for every bit vector (induction, no length bound) for binary, binstr, hexstr, mif, dec/hex comma, dec/hex space, "
+          "decc, hexc, logisim8/16, Intel HEX at units 8/16/32 (one block from offset 0, addresses within 16 bits; checksums/lengths/EOF/contiguity verified by the decoder) and, without the "
+          "ASCII gutter, bindump/hexdump; decoders are written from the formats' own rules. The formatter model is tied to the code by comparing its text byte-for-byte with BitVec::format_* "
+          "and driver::format_output on every length 0..600 (quick) / 0..4096 (thorough) x {random, ones, zeros} x 17 formats x debug/release, 2^k+-1 lengths and multi-block layouts; the "
+          "extracted strict decoders are evaluated on the implementation's text.",
+  "design_ref": "6/C11", "note": COMMON_NOTE + " Known findings F24 (Intel HEX beyond 64 Ki units), F45 (Intel HEX block off an address-unit boundary); multi-block Intel HEX and dump gutters are decided by the run-time predicate, not a theorem.",
+  "technique": "Coq proof (list/bit induction, digit-string round trips, record-accumulator loop invariant) + differential correspondence + extracted decoders on implementation output"}
+CLAIMED["C13"] = {
+  "text": "Line/column, line-range and excerpt arithmetic of diagnostics proved for every text and every byte index on a character boundary (any mix of 1-4-byte characters), including that "
+          "printing never panics and prints the 1-based line and character column; the pre-fix char-index algorithm is refuted with witnesses (F2/F3 regression guard). Tied to the code on each run "
+          "by driving util::CharCounter on every byte index of exhaustive and random multi-byte texts and comparing what report.rs prints for every message with the model. Fault localisation "
+          "(5 fault kinds x position x non-ASCII context x included file) and location validity of every message of corpus mutants are checked by evaluating the property's predicate on the "
+          "implementation's structured messages (guarded hook).",
+  "design_ref": "6/C13", "note": COMMON_NOTE + " Fault localisation and span validity are differential/monitored, not proved. Known finding F51.",
+  "technique": "Coq proofs (induction over texts, byte/char loop refinement through UTF-8) + differential correspondence + spec monitor on structured messages via the guarded hook"}
+CLAIMED["C14"] = {
+  "text": "Theorems for all inputs about the model of filename_navigate (reference normaliser, confinement, <std>), of include expansion over an arbitrary file-system oracle (termination, "
+          "cycle => error, #once <= 1 expansion, splice-in-place soundness) and of the incbin/incbinstr/inchexstr range logic (exact characterisation, no panic). Tied to the code on each run by "
+          "~400k exhaustive path spellings, generated include graphs on the mock file server, all small ranges, and the real binary in a scratch tree with sentinel files outside it; the reference "
+          "normaliser and confinement predicate are evaluated on the implementation's own answers.",
+  "design_ref": "6/C14", "note": COMMON_NOTE + " Known findings F46 (`.` in the current path), F47 (<std> falls through to a real directory), F50 (#include inside #if ignored).",
+  "technique": "Coq proof (fuel induction with seen-stack measure, cycle closure argument, lia/nia for usize arithmetic) + differential correspondence impl/model/spec incl. process-level runs"}
 NOT_CLAIMED = {}
